@@ -21,7 +21,7 @@ EXTRAS = {"none": [], "p": ["-p", "P"], "p2": ["-p", "two words"], "e": ["-e", "
           "p4": ["-p", "cmake-reference"], "e3": ["-e", "*-removed*"],
           # relative values with an inner slash (they mean what the command line makes of them, nothing else)
           "e4": ["-e", "nested/sub/b.cmake"], "e5": ["--exclude", "sub/deep"]}     # values that contain the characters of a flag     # e+e2 repeat a flag, p3+e repeat a value
-INPUTS = ["file", "flat", "nested", "missing", "badfile", "baddir", "linkdir", "linkfile"]
+INPUTS = ["file", "flat", "nested", "missing", "badfile", "baddir", "linkdir", "linkfile", "subonly", "txtfile", "upperfile", "badtxt"]
 
 CLI = ("import sys; sys.path.insert(0, %r); import warnings; warnings.filterwarnings('ignore'); import cminx; "
        "cminx.main(sys.argv[1:])")
@@ -35,13 +35,18 @@ def build(box):
                "lone/file.cmake": good("file"),
                "badfile/bad.cmake": "set(A 1)\nstray text here\nset(B \"unterminated)\n",
                "baddir/a.cmake": good("a"), "baddir/sub/bad.cmake": "function(f\n", "baddir/z.cmake": good("z"),
+               # modules only in sub-directories; single files whose names do not end in lower-case '.cmake'
+               "subonly/core/a.cmake": good("a"), "subonly/io/b.cmake": good("b"), "subonly/README.txt": "no cmake here\n",
+               "proj/CMakeLists.txt": good("lists"), "proj/FindThing.CMAKE": good("thing"),
+               "projbad/CMakeLists.txt": "set(A 1)\nfunction(broken\n",
                "cfg.yaml": "rst:\n  module_path_separator: '/'\n  file_extensions_in_titles: true\n"})
     # inputs reached through symbolic links (a directory under another name, a file under another base name)
     os.symlink("nested", box.path("work", "current"))
     os.makedirs(box.path("work", "links"), exist_ok=True)
     os.symlink(os.path.join("..", "lone", "file.cmake"), box.path("work", "links", "AcmeTools.cmake"))
     return {"file": "lone/file.cmake", "flat": "flat", "nested": "nested", "missing": "does/not/exist",
-            "badfile": "badfile/bad.cmake", "baddir": "baddir", "linkdir": "current", "linkfile": "links/AcmeTools.cmake"}
+            "badfile": "badfile/bad.cmake", "baddir": "baddir", "linkdir": "current", "linkfile": "links/AcmeTools.cmake",
+            "subonly": "subonly", "txtfile": "proj/CMakeLists.txt", "upperfile": "proj/FindThing.CMAKE", "badtxt": "projbad/CMakeLists.txt"}
 
 
 def run_case(job):
@@ -200,6 +205,74 @@ def run_sequence(job):
             "cls": msgs[0].split(":")[0] if msgs else None}
 
 
+def run_two_calls(job):
+    """two cminx_gen_rst() calls in ONE CMake run (one output directory), against the same two command lines"""
+    kind = job
+    box = fsbox.Box("c19t")
+    msgs = []
+    try:
+        good = fsbox.cmake_content
+        box.build({"m/string-utils.cmake": good("dash"), "m/string_utils.cmake": good("underscore"), "m/api.cmake": good("api-one"),
+                   "d-1/x.cmake": good("x1"), "d_1/x.cmake": good("x2")})
+        work = box.path("work")
+        wrapper = box.path("cminx-wrapper.sh")
+        with open(wrapper, "w") as f:
+            f.write(f"#!/bin/sh\nexec {common.PYTHON} -c \"{CLI % common.REPO_SRC}\" \"$@\"\n")
+        os.chmod(wrapper, os.stat(wrapper).st_mode | stat.S_IEXEC)
+        env = dict(os.environ, CMINXDIR=box.path("cfg"), HOME=box.path("home"), XDG_CONFIG_HOME=box.path("home", ".config"),
+                   PWD=box.path("stale-pwd"))
+        out_cm, out_cli = os.path.join(work, "out-cmake"), os.path.join(work, "out-cli")
+        two = 'set(A 1)\n#[[[\n# Rewritten.\n#]]\nfunction(second_revision)\nendfunction()\n'
+        if kind == "punctuation-files":
+            calls = [(os.path.join(work, "m", "string-utils.cmake"), None), (os.path.join(work, "m", "string_utils.cmake"), None)]
+        elif kind == "punctuation-dirs":
+            calls = [(os.path.join(work, "d-1"), None), (os.path.join(work, "d_1"), None)]
+        elif kind == "rewrite":
+            calls = [(os.path.join(work, "m", "api.cmake"), None), (os.path.join(work, "m", "api.cmake"), two)]
+        else:       # the second revision is faulty: the second call must fail
+            calls = [(os.path.join(work, "m", "api.cmake"), None), (os.path.join(work, "m", "api.cmake"), "function(broken\n")]
+        script = f'set(CMINX_EXECUTABLE "{wrapper}")\ninclude("{os.path.join(common.REPO_ROOT, "cmake", "cminx.cmake")}")\n'
+        for target, rewrite in calls:
+            if rewrite is not None:
+                script += f'file(WRITE "{target}" [==[{rewrite}]==])\n'
+            script += f'cminx_gen_rst("{target}" "{out_cm}")\n'
+        script += 'message(STATUS "REACHED-AFTER-CALLS")\n'
+        with open(box.path("driver.cmake"), "w") as f:
+            f.write(script)
+        orig = open(calls[1][0]).read() if calls[1][1] is not None else None
+        pc = subprocess.run(["cmake", "-P", box.path("driver.cmake")], cwd=work, env=env, capture_output=True, text=True)
+        if orig is not None:
+            with open(calls[1][0], "w") as f:
+                f.write(orig)
+        rcs = []
+        for target, rewrite in calls:
+            if rewrite is not None:
+                with open(target, "w") as f:
+                    f.write(rewrite)
+            isdir = os.path.isdir(target)
+            pd = subprocess.run([common.PYTHON, "-c", CLI % common.REPO_SRC, target] + (["-r"] if isdir else []) + ["-o", out_cli],
+                                cwd=work, env=env, capture_output=True, text=True)
+            rcs.append(pd.returncode)
+            if pd.returncode:
+                break
+        fail_direct = any(rcs)
+        if fail_direct != (pc.returncode != 0):
+            msgs.append(f"status: the two command lines {'fail' if fail_direct else 'succeed'} but the CMake run with the two calls "
+                        f"{'fails' if pc.returncode else 'succeeds'} ({kind})")
+        if fail_direct and "REACHED-AFTER-CALLS" in pc.stdout:
+            msgs.append("status: CMinx failed in the second call but the script continued")
+        t_cm = box.files("work/out-cmake") if os.path.isdir(out_cm) else {}
+        t_cli = box.files("work/out-cli") if os.path.isdir(out_cli) else {}
+        if t_cm != t_cli:
+            diffk = sorted(k for k in set(t_cm) | set(t_cli) if t_cm.get(k) != t_cli.get(k))
+            msgs.append(f"tree: after two calls in one CMake run ({kind}) the output differs from the two command lines in {diffk[:4]}")
+    finally:
+        box.cleanup()
+    msgs = [m.replace(box.root, "<box>") for m in msgs]
+    return {"viol": msgs[:4], "obs": common.digest([job, msgs]), "n": 3, "nt": common.digest(job), "cls": msgs[0].split(":")[0] + " two-calls" if msgs else None,
+            "case": {"two_calls": kind}}
+
+
 def run(ctx):
     quick = ctx.tier == "quick"
     singles = [[e] if e != "none" else [] for e in EXTRAS]
@@ -221,12 +294,16 @@ def run(ctx):
     seq = [(inp, e1, e2, edit) for inp in ("file", "flat", "nested")
            for e1, e2, edit in (([], [], "content"), ([], ["p"], "none"), (["p"], [], "content"), ([], [], "break"))]
     ctx.sweep(run_sequence, seq, space="two calls on one output directory with an edit in between", selftest=0, chunk=1, isolate=False)
+    ctx.sweep(run_two_calls, ["punctuation-files", "punctuation-dirs", "rewrite", "rewrite-broken"],
+              space="two calls in one CMake run", selftest=0, chunk=1, isolate=False)
     ctx.assumptions += ["empty-string extra arguments are not generated (CMake list expansion drops them by design)",
                         "the package config template (needs an installed build) is not executed; CMINX_EXECUTABLE is bound by the driver"]
     return RULE
 
 
 def replay(case):
+    if isinstance(case, dict) and "two_calls" in case:
+        return run_two_calls(case["two_calls"])["viol"]
     if len(case) == 4:
         return run_sequence(tuple(case))["viol"]
     return run_case(tuple(case))["viol"]
